@@ -648,6 +648,9 @@ pub struct TensorChain {
 
     /// Optional geometric membership manager for routing decisions.
     geometric_membership: Option<Arc<GeometricMembershipManager>>,
+
+    /// Serializes commits: pre-image, apply, state root and append form one critical section.
+    commit_lock: parking_lot::Mutex<()>,
 }
 
 impl TensorChain {
@@ -696,6 +699,7 @@ impl TensorChain {
             identity,
             validator_registry,
             geometric_membership: None,
+            commit_lock: parking_lot::Mutex::new(()),
         }
     }
 
@@ -738,6 +742,7 @@ impl TensorChain {
             identity,
             validator_registry,
             geometric_membership: None,
+            commit_lock: parking_lot::Mutex::new(()),
         }
     }
 
@@ -782,6 +787,7 @@ impl TensorChain {
             identity,
             validator_registry,
             geometric_membership: None,
+            commit_lock: parking_lot::Mutex::new(()),
         }
     }
 
@@ -827,6 +833,7 @@ impl TensorChain {
             identity,
             validator_registry,
             geometric_membership: None,
+            commit_lock: parking_lot::Mutex::new(()),
         }
     }
 
@@ -977,6 +984,9 @@ impl TensorChain {
     /// # Errors
     /// Returns an error if the transaction cannot be committed or block creation fails.
     pub fn commit(&self, workspace: &Arc<TransactionWorkspace>) -> Result<BlockHash> {
+        // One commit at a time: a commit that fails after another one succeeded would
+        // otherwise restore a pre-image that predates the other commit's block.
+        let _commit_guard = self.commit_lock.lock();
         workspace.mark_committing()?;
         let operations = workspace.operations();
 
@@ -1425,6 +1435,7 @@ impl TensorChain {
             identity,
             validator_registry,
             geometric_membership: None,
+            commit_lock: parking_lot::Mutex::new(()),
         }
     }
 
